@@ -13,6 +13,8 @@ import (
 	"encoding/json"
 	"errors"
 	"fmt"
+	"net/http"
+	"net/url"
 	"reflect"
 	"sort"
 	"strings"
@@ -26,6 +28,7 @@ import (
 	"k8s.io/apiserver/pkg/authentication/authenticator"
 	"k8s.io/apiserver/pkg/authentication/user"
 	"k8s.io/apiserver/pkg/authorization/authorizer"
+	apirequest "k8s.io/apiserver/pkg/endpoints/request"
 	"k8s.io/client-go/kubernetes"
 	"k8s.io/client-go/kubernetes/fake"
 	authenticationv1client "k8s.io/client-go/kubernetes/typed/authentication/v1"
@@ -526,11 +529,31 @@ func errKind(err error) string {
 	return "other:" + err.Error()
 }
 
+// requestCtx builds the request context the way the gateway's filter chain does: the REAL
+// ExtraRequestInfoFactory.NewExtraRequestInfo takes the host from the request's Host header (port stripped, lower-cased).
+var infoFactory = &request.ExtraRequestInfoFactory{LongRunningFunc: func(*http.Request, *apirequest.RequestInfo) bool { return false }}
+
+func requestCtx(hostport string) (context.Context, string, error) {
+	req := &http.Request{Method: "GET", Host: hostport, URL: &url.URL{Path: "/api"}, Header: http.Header{}}
+	req = req.WithContext(apirequest.WithRequestInfo(context.Background(), &apirequest.RequestInfo{}))
+	info, err := infoFactory.NewExtraRequestInfo(req)
+	if err != nil {
+		return nil, "", err
+	}
+	return request.WithExtraRequestInfo(req.Context(), info), info.Hostname, nil
+}
+
 func (w *world) doTok(m *Macro) {
-	host, tok := rig.UnHex(m.Host), rig.UnHex(m.Tok)
+	tok := rig.UnHex(m.Tok)
 	r := w.beginReq("tok", m)
+	ctx, host, cerr := requestCtx(rig.UnHex(m.Host))
+	if cerr != nil {
+		w.endReq()
+		w.outs = append(w.outs, ImplOut{Kind: "tok", Rid: r.rid, Host: m.Host, Tok: m.Tok, Own: -1, Time: w.clock,
+			Res: TokRes{K: "err", E: "other:" + cerr.Error()}, Problem: "NewExtraRequestInfo failed: " + cerr.Error()})
+		return
+	}
 	own, ownReady := w.resolve(host)
-	ctx := request.WithExtraRequestInfo(context.Background(), &request.ExtraRequestInfo{Hostname: host})
 	var resp *authenticator.Response
 	var ok bool
 	var err error
@@ -619,8 +642,14 @@ func decisionName(d authorizer.Decision) string {
 }
 
 func (w *world) doSar(m *Macro) {
-	host := rig.UnHex(m.Host)
 	r := w.beginReq("sar", m)
+	ctx, host, cerr := requestCtx(rig.UnHex(m.Host))
+	if cerr != nil {
+		w.endReq()
+		w.outs = append(w.outs, ImplOut{Kind: "sar", Rid: r.rid, Host: m.Host, Attrs: m.Attrs, Own: -1, Time: w.clock,
+			Res: SarRes{D: "deny", E: "other:" + cerr.Error()}, Problem: "NewExtraRequestInfo failed: " + cerr.Error()})
+		return
+	}
 	own, ownReady := w.resolve(host)
 	out := ImplOut{Kind: "sar", Rid: r.rid, Host: m.Host, Attrs: m.Attrs, Own: own, OwnReady: ownReady}
 	if m.Attrs < 0 || m.Attrs >= len(w.cs.Attrs) {
@@ -631,7 +660,6 @@ func (w *world) doSar(m *Macro) {
 		return
 	}
 	rec := attrsRecord(&w.cs.Attrs[m.Attrs])
-	ctx := request.WithExtraRequestInfo(context.Background(), &request.ExtraRequestInfo{Hostname: host})
 	var d authorizer.Decision
 	var reason string
 	var err error
